@@ -85,6 +85,9 @@ impl PatProp for VsRegex {
         if n.has_leaky_inline_flag() && ctx.active("inline_flag_inside_non_flag_group") {
             return Prep::Excluded("F5:inline_flag_inside_non_flag_group");
         }
+        if n.has_spaced_class_under_x() && ctx.active("class_whitespace_under_x_flag") {
+            return Prep::Excluded("F23:class_whitespace_under_x_flag");
+        }
         st.class(if vm { "engine:VM" } else { "engine:Wrap" });
         let special = n.any(|x| matches!(x, Assert(A::WordB | A::NotWordB | A::WordStart | A::WordEnd) | Flags(..) | SetFlags(..)));
         if n.any(|x| matches!(x, Flags(..) | SetFlags(..))) {
@@ -313,7 +316,7 @@ pub fn run(ctx: &RunCtx) -> Outcome {
         const CLASSES: &[&str] = &[
             "[ab]", "[^ab]", "[a-c]", "[]a]", "[^]a]", "[a\\]]", "[a\\-c]", "[a-]", "[-a]", "[\\d]", "[\\w-]", "[^\\W]", "[\\s\\S]", "[a-c&&[^b]]", "[\\w&&[^a]]", "[[:alpha:]]", "[[:^digit:]x]",
             "[a[bc]]", "[^a[^b]]", "[\\n]", "[\\t ]", "[\\x61]", "[\\x{61}-\\x{63}]", "[\\u0061]", "[.]", "[*+?]", "[(|)]", "[{}]", "[\\^a]", "[a^]", "[é-ë]", "[\\p{L}]", "[\\PL]", "[^\\p{Lu}a]",
-            "\\p{Greek}", "\\pL", "\\PL", "[\\\\]", "[\\]\\[]", "[a-c[x-z]]", "[^\\n]", "[\\d&&[^1]]", "[A-Za-z_]", "[^-]", "[\\.-a]",
+            "\\p{Greek}", "\\pL", "\\PL", "[\\\\]", "[\\]\\[]", "[a-c[x-z]]", "[^\\n]", "[\\d&&[^1]]", "[A-Za-z_]", "[^-]", "[\\.-a]", "[a b]", "[ ]", "[a\\ b]", "[^ a]", "[a #]", "[a-c ]",
         ];
         let mut v = vec![];
         for c in CLASSES {
@@ -327,6 +330,9 @@ pub fn run(ctx: &RunCtx) -> Outcome {
             v.push(Flags("i".into(), "".into(), Box::new(r.clone())));
             v.push(Concat(vec![Flags("i".into(), "".into(), Box::new(r.clone())), Assert(A::WordB)]));
             v.push(Concat(vec![Raw("[^\\n]".into(), false), r.clone()]));
+            // free-spacing mode around a class (both crates have to read the class the same way)
+            v.push(Flags("x".into(), "".into(), Box::new(r.clone())));
+            v.push(Concat(vec![Flags("x".into(), "".into(), Box::new(r.clone())), Assert(A::WordB)]));
             v.push(Alt(vec![Concat(vec![Assert(A::WordB), r.clone()]), Lit('a')]));
         }
         let ctexts = gen::texts(&['a', 'b', 'c', '-', ']', '[', '^', '\\', '1', ' ', 'é', 'A', '.', 'x', 'α', '\n'], 2);
@@ -339,7 +345,9 @@ pub fn run(ctx: &RunCtx) -> Outcome {
     fcfg.leaves = vec![Lit('a'), Lit('B'), Any, Class(false, vec![('a', 'b')]), Class(true, vec![('A', 'A')]), Perl('w'), Assert(A::StartText), Assert(A::EndText), Assert(A::WordB), Lit('é'), Lit('\n')];
     let fbases = space(&fcfg, 3, false);
     let fpats = flag_variants(&fbases);
-    let ftexts = if quick { gen::texts(&['a', 'A', 'B', '\n'], 3) } else { gen::texts(&['a', 'A', 'B', 'é', '\n'], 3) };
+    let mut ftexts = if quick { gen::texts(&['a', 'A', 'B', '\n'], 3) } else { gen::texts(&['a', 'A', 'B', 'é', '\n'], 3) };
+    // non-ASCII letters in the other case
+    ftexts.extend(["é", "É", "éÉ", "aÉ", "Éa", "É\n", "bÉB", "Éé", "aé", " É "].iter().map(|s| s.to_string()));
     if !stage(ctx, &mut o, &plain, "flag variants of N<=3 bases", &fpats, &ftexts) {
         return o;
     }
